@@ -179,6 +179,7 @@ def run(prog):
             rep['threaded'] += thread_bool_results(f)
             fold_const_switches(f)
             rep['folded'] = rep.get('folded', 0) + fold_switches(prog, f)
+            _blank_unreachable(f)
             f._cache.clear()
     return rep
 
